@@ -2,6 +2,7 @@ import Driver.Util
 import CtyModel.Refine
 import CtyModel.RefineIdeal
 import CtyModel.RefineWith
+import CtyModel.RefineTextFree
 open CtyModel
 open CtyModel.Refine
 
@@ -13,7 +14,13 @@ open CtyModel.Refine
 * `rfn.runx` the same with `partialOracle` (exact comparison, `unmodelled` where the answer could
   depend on the decimal text) — the instance of `ExactOracle` the theorems are tied through
 * `rfn.runi` the same with `D05.idealOracle` (exact comparison, always answering): sent by the harness only for
-  inputs whose numbers are all integers or infinities, where `C05.run_code_eq_exact` proves the three oracles agree
+  inputs whose numbers are all integers or infinities, where `C05.run_code_eq_exact` proves the three oracles agree,
+  and (slice d05b) for inputs on which the real `Equals` answers as `Cmp` for every pair of numbers
+  (`C05.refine_code_eq_exact_textfree`)
+* `rfn.textfree <value> (<call>*)` → `0|1`: the decidable side condition `D05b.textFree` of the bridge theorems (the
+  harness sends the same condition evaluated on the real code)
+* `rfn.klen <value>` → `Length()` of a known collection as the range of possible lengths `ok <least> <most>`
+  (`knownLength`; slice d05b)
 * `rfn.with <value> ((<same> (<call>*))*)` → `v.RefineWith(refiners...)`: each refiner applies its calls and returns the
   builder it was given (`same = 1`) or another one; `ok <value> <observers>` | `panic` | `unmodelled`
 * `rfn.nn <value>` → `v.RefineNotNull()`
@@ -121,6 +128,17 @@ def handleRefine : Handler := fun op args =>
   | "rfn.nn", [v] => do
     let v ← Value.ofSexp v
     pure (rfnValRes (@D05.refineNotNull textOracle v))
+  | "rfn.textfree", [v, .list cs] => do
+    let v ← Value.ofSexp v
+    let cs ← cs.mapM decCall
+    pure (toString (Sexp.encBool (D05b.textFree v cs)))
+  | "rfn.klen", [v] => do
+    let v ← Value.ofSexp v
+    pure (match knownLength v.unmark with
+      | .ok (least, most) => s!"ok {least} {most}"
+      | .panic _ => "panic"
+      | .err _ => "err"
+      | .unmodelled => "unmodelled")
   | "rfn.range", [v] => do
     let v ← Value.ofSexp v
     pure (observers v)
